@@ -205,6 +205,8 @@ def make_ac(c, d):
     else:
         k = rc_profile(rng, p, d['prof'], cplx)
         r = refs.ac_from_rc(k, 10.0 ** rng.uniform(-2, 2))
+    if d.get('scale10'):
+        r = r * 10.0 ** d['scale10']          # positive definiteness does not depend on the overall scale
     if d.get('indefinite'):
         j = int(rng.integers(1, p + 1))
         r = r.copy()
@@ -240,6 +242,8 @@ def cases(c):
             d['prof'] = gen.pick(rng, PROFILES)
         if rng.uniform() < 0.15:
             d['indefinite'] = True
+        if rng.uniform() < 0.3:
+            d['scale10'] = int(gen.pick(rng, [-18, -16, -12, -8, -4, 4, 8, 12]))
         out.append(d)
     for i in range(600 if c.tier == 'quick' else 4000):
         out.append({'fn': gen.pick(rng, ['HERMTOEP', 'TOEPLITZ', 'CHOLESKY']),
